@@ -232,6 +232,14 @@ def _int_lit(t):
         return None
 
 
+def _is_err_ctor(node):
+    """syntactically `Err(..)` / `Err(..).into()` / `Err(e.into())`: only such a returned expression is evaluated ahead of the branch
+    decision (anything else - e.g. a call of a helper - belongs to the branch and is evaluated on the path that takes it)"""
+    while isinstance(node, dict) and node.get("k") in ("paren", "mcall") and (node.get("k") == "paren" or node.get("m") == "into"):
+        node = node["e"] if node["k"] == "paren" else node["recv"]
+    return isinstance(node, dict) and node.get("k") == "call" and node["f"].get("k") == "path" and node["f"]["segs"][-1] == "Err"
+
+
 def _poly_nonneg(p):
     """sufficient test for p >= 0 when every symbol of p is a non-negative integer: no negative coefficient"""
     return all(c >= 0 for c in p.t.values())
@@ -786,6 +794,12 @@ class Interp:
                     if (l_ == r_) != (p == "assert_eq"):
                         self.ctx.exits.append(("panic", p + "!(" + st["tokens"][:80] + ") fails"))
                     return UNIT
+                try:
+                    same = canon(l_) == canon(r_)
+                except Exception:
+                    same = False
+                if same and p == "assert_eq":
+                    return UNIT          # syntactically the same value on both sides: the assertion holds
                 self.ctx.exits.append(("panic_unless", VOpaque("eq" if p == "assert_eq" else "ne", [l_, r_])))
                 return UNIT
             if p == "assert" and st.get("args"):
@@ -916,6 +930,11 @@ class Interp:
         if op in ("+=", "-=", "*="):
             cur = self.expr(e["l"], env)
             r = self.expr(e["r"], env)
+            if isinstance(cur, VStruct) and getattr(self, "file_root", None):
+                # `x op= y` on a crate struct: the real body of its `OpAssign` impl (found in the unit's helper files), on x itself
+                rv = self.inline_method(cur, {"+": "add_assign", "-": "sub_assign", "*": "mul_assign"}[op[0]], [r], type_name="__opassign__")
+                if rv is not NotImplemented:
+                    return UNIT
             nv = self.arith(op[0], cur, r, e)
             self.assign(e["l"], nv, env)
             return UNIT
@@ -1265,7 +1284,8 @@ class Interp:
         # symbolic condition: only the shape `if cond { return Err(..) }` (no else) is in the fragment
         if e["else"] is None:
             st = e["then"]["stmts"]
-            if len(st) == 1 and st[0]["k"] == "expr" and st[0]["expr"]["k"] == "return" and st[0]["expr"].get("e") is not None:
+            if len(st) == 1 and st[0]["k"] == "expr" and st[0]["expr"]["k"] == "return" and st[0]["expr"].get("e") is not None \
+                    and _is_err_ctor(st[0]["expr"]["e"]):
                 rv = self.expr(st[0]["expr"]["e"], env)
                 if isinstance(rv, VErr):
                     self.exit_err_if(c, rv.what)
@@ -1807,7 +1827,7 @@ class Interp:
             # field inverse as an uninterpreted symbol of its (normalised) argument: inv(p); `inv(p) * p == 1` is NOT known to
             # the normal form -- contracts state results in the product form (see kernels.batch_inversion)
             p0 = as_poly(_deref(recv))
-            return VOpaque("ct_some", [Sym(f"inv({canon(p0)})")])
+            return VOpaque("ct_some", [inv_sym(p0)])
         if m == "unwrap" and not args and isinstance(recv, VOpaque) and recv.name == "ct_some":
             self.ctx.unwraps = getattr(self.ctx, "unwraps", []) + [canon(recv.args[0])]
             return recv.args[0]
@@ -2643,6 +2663,8 @@ def run_unit(root, unit, contracts, seed=0, perturb=None):
     if getattr(unit, "extra_contracts", None):
         contracts = dict(contracts)
         contracts.update(unit.extra_contracts)
+    global _DIFF_NORMALISER
+    _DIFF_NORMALISER = getattr(unit, "diff_norm", None)
     ast = dump_ast(root, unit.file, unit.fn)
     consts = dict(file_consts(root, unit.file))
     consts.update(unit.consts)
@@ -2726,6 +2748,7 @@ def run_unit(root, unit, contracts, seed=0, perturb=None):
         ctx2 = Ctx()
         ctx2.is_contract = True
         it2 = Interp(ctx2, contracts, consts, src_name=f"contract of {unit.name}")
+        ctx2.pcs = list(pcs)
         dec = {}
         for c, t in pcs:
             dec[canon(c)] = t
@@ -3111,6 +3134,56 @@ def _norm_value(v):
     return v
 
 
+_INV_ARGS = {}          # name of an inverse symbol -> the polynomial it inverts
+_DIFF_NORMALISER = None  # per-unit normal form of a difference polynomial (e.g. reduction modulo the root-of-unity relation)
+
+
+def inv_sym(p):
+    """the field inverse of p as an uninterpreted symbol, registered so that a difference of two results can be decided by clearing
+    denominators: inv(A) * A == 1 whenever the inverse exists"""
+    p = as_poly(p)
+    name = f"inv({canon(p)})"
+    _INV_ARGS[name] = p
+    return Sym(name)
+
+
+def _clear_inverses(d):
+    """d * prod_A A^(e_A) with every inv(A)^k * A^(e_A) replaced by A^(e_A - k): zero iff d is zero wherever all inverted quantities are
+    non-zero (None if d has no registered inverse symbol, or the inverted quantities are themselves built from inverses)"""
+    names = [v for v in d.vars() if v in _INV_ARGS]
+    if not names:
+        return None
+    if any(any(v in _INV_ARGS for v in _INV_ARGS[n].vars()) for n in names):
+        return None
+    emax = {n: 0 for n in names}
+    for mono in d.t:
+        for v, e in mono:
+            if v in emax and e > emax[v]:
+                emax[v] = e
+    if sum(emax.values()) > 6:
+        return None
+    pw = {}
+    for n in names:
+        A = _INV_ARGS[n]
+        acc = [C(1)]
+        for _ in range(emax[n]):
+            acc.append(acc[-1] * A)
+        pw[n] = acc
+    out = C(0)
+    cache = {}
+    for mono, c in d.t.items():
+        ks = tuple(dict(mono).get(n, 0) for n in names)
+        fac = cache.get(ks)
+        if fac is None:
+            fac = C(1)
+            for n, k in zip(names, ks):
+                fac = fac * pw[n][emax[n] - k]
+            cache[ks] = fac
+        rest = tuple((v, e) for v, e in mono if v not in emax)
+        out = out + Poly({rest: c}) * fac
+    return out
+
+
 def compare(a, b, seed):
     a, b = _norm_value(a), _norm_value(b)
     if isinstance(a, (Poly, Sym)) and isinstance(b, (Poly, Sym, int)) or isinstance(b, (Poly, Sym)) and isinstance(a, (Poly, Sym, int)):
@@ -3118,6 +3191,12 @@ def compare(a, b, seed):
         d = pa - pb
         if d.is_zero():
             return True, None, None
+        d2 = _clear_inverses(d)
+        if d2 is not None:
+            if _DIFF_NORMALISER is not None:
+                d2 = _DIFF_NORMALISER(d2)
+            if d2.is_zero():
+                return True, None, None      # equal wherever the inverted quantities are non-zero (which taking the inverse presupposes)
         env, val = witness_nonzero(d, seed)
         cex = None
         if env is not None:
